@@ -364,6 +364,8 @@ def s_isinstance(obj, cls):
         return sh._inst(obj)
     if cls is np.ndarray and _is_struct(obj):
         return True
+    if cls is np.bytes_ and _is_sstr(obj):
+        return obj.is_bytes
     return isinstance(obj, cls)
 
 
